@@ -79,3 +79,100 @@ Proof.
   intros b l s Hp Hv Hr. unfold lin_check. rewrite <- (Permutation_length Hp).
   eapply search_perm_fuel; [exact Hp|apply search_complete; assumption].
 Qed.
+
+(* a store whose every call takes effect atomically at some instant between its invocation and its return (what a mutex
+   around each call gives) only produces histories the checker accepts *)
+Theorem atomic_histories_accepted : forall b s, valid_seq b s = true -> respects_rt s = true -> forall l, Permutation s l -> lin_check b l = true.
+Proof. intros b s Hv Hr l Hp. eapply lin_check_complete; eassumption. Qed.
+
+(* ---- witnesses ---- *)
+Lemma same_calls_perm s l : same_calls s l = true -> Permutation s l.
+Proof.
+  intros H. apply (Permutation_count_occ call_eq_dec). intros c.
+  unfold same_calls in H. rewrite forallb_forall in H.
+  destruct (in_dec call_eq_dec c (s ++ l)) as [Hin|Hn].
+  - apply Nat.eqb_eq. apply H. exact Hin.
+  - assert (~ In c s /\ ~ In c l) as [Hs Hl] by (split; intros X; apply Hn; apply in_or_app; auto).
+    apply (count_occ_not_In call_eq_dec) in Hs. apply (count_occ_not_In call_eq_dec) in Hl. congruence.
+Qed.
+
+Theorem check_witness_sound : forall b l s, check_witness b l s = true ->
+  Permutation s l /\ valid_seq b s = true /\ respects_rt s = true.
+Proof.
+  intros b l s H. unfold check_witness in H. apply andb_true_iff in H as [H Hr]. apply andb_true_iff in H as [Hp Hv].
+  split; [apply same_calls_perm; exact Hp|split; assumption].
+Qed.
+
+Theorem check_witness_lin : forall b l s, check_witness b l s = true -> lin_check b l = true.
+Proof. intros b l s H. apply check_witness_sound in H as (Hp & Hv & Hr). eapply lin_check_complete; eassumption. Qed.
+
+(* ---- the per-ref reading never rejects a linearizable store: if the whole history (enumerations included) has a
+   sequential witness, so has what it says about each ref ---- *)
+Lemma proj_times k c x : proj k c = Some x -> c_inv x = g_inv c /\ c_ret x = g_ret c.
+Proof.
+  unfold proj. destruct (g_op c) as [k'|k'|k' seen|listed]; try destruct (Nat.eqb k k'); intros H; try discriminate;
+    injection H as <-; split; reflexivity.
+Qed.
+
+Lemma project_minimal k c x rest : proj k c = Some x -> g_minimal c rest = true -> minimal x (project k rest) = true.
+Proof.
+  intros Hx Hm. apply proj_times in Hx as [Hi _]. unfold minimal, g_minimal in *. rewrite forallb_forall in *.
+  induction rest as [|d rest IH]; [intros y []|].
+  cbn [project]. assert (Hd := Hm d (or_introl eq_refl)).
+  assert (Hrest : forall y, In y rest -> negb (g_ret y <? g_inv c) = true) by (intros y Hy; apply Hm; right; exact Hy).
+  destruct (proj k d) as [y|] eqn:Ey.
+  - intros z [<-|Hz].
+    + apply proj_times in Ey as [_ Hr]. rewrite Hi, Hr. exact Hd.
+    + apply IH; [exact Hrest|exact Hz].
+  - apply IH. exact Hrest.
+Qed.
+
+Lemma project_rt k : forall s, g_respects_rt s = true -> respects_rt (project k s) = true.
+Proof.
+  induction s as [|c s IH]; intros H; [reflexivity|].
+  cbn [g_respects_rt] in H. apply andb_true_iff in H as [Hm Hr]. cbn [project].
+  destruct (proj k c) as [x|] eqn:E; [|apply IH; exact Hr].
+  cbn [respects_rt]. rewrite (project_minimal k c x s E Hm), (IH Hr). reflexivity.
+Qed.
+
+Lemma project_valid k : forall s st, g_valid st s -> valid_seq (st k) (project k s) = true.
+Proof.
+  induction s as [|c s IH]; intros st H; [reflexivity|].
+  cbn [g_valid] in H. destruct H as [Hok Hv]. specialize (IH _ Hv). cbn [project].
+  unfold proj, g_ok, g_next in *. destruct (g_op c) as [k'|k'|k' seen|listed]; cbn beta in IH.
+  - destruct (Nat.eqb k k') eqn:E; [|exact IH]. cbn. exact IH.
+  - destruct (Nat.eqb k k') eqn:E; [|exact IH]. cbn. exact IH.
+  - destruct (Nat.eqb k k') eqn:E; [|exact IH]. apply Nat.eqb_eq in E. subst k'.
+    cbn. unfold ok, next. cbn. rewrite Hok, eqb_reflx. exact IH.
+  - cbn. unfold ok, next. cbn. rewrite (Hok k), eqb_reflx. exact IH.
+Qed.
+
+Lemma project_perm k : forall s l, Permutation s l -> Permutation (project k s) (project k l).
+Proof.
+  intros s l H. induction H as [|c s l H IH|c d s|s l m H1 IH1 H2 IH2]; cbn [project].
+  - constructor.
+  - destruct (proj k c); [apply perm_skip|]; exact IH.
+  - destruct (proj k c), (proj k d); try apply Permutation_refl. apply perm_swap.
+  - eapply Permutation_trans; eassumption.
+Qed.
+
+Theorem linearizable_store_accepted : forall (h s : list gcall) st, Permutation s h -> g_valid st s -> g_respects_rt s = true ->
+  forall k, lin_check (st k) (project k h) = true.
+Proof.
+  intros h s st Hp Hv Hr k. eapply lin_check_complete.
+  - apply project_perm. exact Hp.
+  - apply project_valid. exact Hv.
+  - apply project_rt. exact Hr.
+Qed.
+
+(* examples: a stale read is rejected, an overlapping one accepted *)
+Lemma stale_read_rejected :
+  lin_check false [ {| c_inv := 1; c_ret := 2; c_op := KReceive; c_res := true |};
+                    {| c_inv := 3; c_ret := 4; c_op := KRead; c_res := false |} ] = false
+  /\ lin_check false [ {| c_inv := 1; c_ret := 4; c_op := KReceive; c_res := true |};
+                       {| c_inv := 2; c_ret := 3; c_op := KRead; c_res := false |} ] = true
+  /\ lin_check false [ {| c_inv := 1; c_ret := 2; c_op := KReceive; c_res := true |};
+                       {| c_inv := 3; c_ret := 6; c_op := KRemove; c_res := true |};
+                       {| c_inv := 4; c_ret := 5; c_op := KRead; c_res := true |};
+                       {| c_inv := 7; c_ret := 8; c_op := KRead; c_res := true |} ] = false.
+Proof. vm_compute. repeat split. Qed.
